@@ -78,6 +78,9 @@ pub struct World {
     /// A `Signals` handle (real signalfd, its reads are simulated), created
     /// on first use; dropped together with the descriptor.
     pub signals: Option<*mut a10::process::Signals>,
+    /// Descriptor 0 was converted into a direct descriptor: its index in the
+    /// ring's table.
+    pub direct_index: Option<i32>,
 }
 
 /// Begin a case: reset simulator, shims, tracker epoch.
@@ -120,7 +123,7 @@ impl World {
             ring.sq()
         };
         let ring_fd = sim::sim().rings.iter().find(|r| !r.closed).map(|r| r.fd).ok_or("no simulated ring after build")?;
-        Ok(World { ring: Some(ring), sq: Some(sq), ring_fd, fds: Vec::new(), mark, cfg_single_issuer: cfg.defer_taskrun && !cfg.sqpoll, signals: None })
+        Ok(World { ring: Some(ring), sq: Some(sq), ring_fd, fds: Vec::new(), mark, cfg_single_issuer: cfg.defer_taskrun && !cfg.sqpoll, signals: None, direct_index: None })
     }
 
     pub fn sq(&self) -> SubmissionQueue {
@@ -144,6 +147,91 @@ impl World {
     /// enforces what the borrow checker would).
     pub fn fd(&self, i: usize) -> &'static AsyncFd {
         unsafe { &*self.fds[i].expect("fd already dropped") }
+    }
+
+    /// Convert descriptor `i` into a direct descriptor (to_direct_descriptor
+    /// against the simulated kernel); the regular descriptor is dropped and
+    /// its close flushed. Set-up only: nothing may be in flight.
+    pub fn make_fd_direct(&mut self, i: usize) -> Result<(), String> {
+        use std::future::Future;
+        use std::task::{Context, Poll};
+        let slot_cell: std::sync::Arc<std::sync::Mutex<Option<i32>>> = Default::default();
+        let cell = slot_cell.clone();
+        sim::sim().enter_hook = Some(Box::new(move |ring: &mut sim::SimRing, info: &sim::EnterInfo| {
+            for serial in &info.consumed {
+                let Some(req) = ring.req(*serial).cloned() else { continue };
+                if req.done || req.sqe.opcode != crate::abi::OP_FILES_UPDATE {
+                    continue;
+                }
+                match ring.alloc_direct() {
+                    Some(slot) => {
+                        if let Some(r) = req.regions.iter().find(|r| r.what == "fds") {
+                            sim::regions::write_region(r, 0, &(slot as i32).to_ne_bytes());
+                        }
+                        *cell.lock().unwrap() = Some(slot as i32);
+                        ring.complete(*serial, 1, 0, false);
+                    }
+                    None => {
+                        ring.complete(*serial, -libc::ENFILE, 0, false);
+                    }
+                }
+            }
+        }));
+        let waker = crate::interp::waker::WakerHandle::new();
+        let afd = self.fd(i);
+        let result = {
+            let mut fut = {
+                let _s = track::scope(track::TAG_A10);
+                Box::pin(afd.to_direct_descriptor())
+            };
+            let mut out = Err("to_direct_descriptor did not complete".to_string());
+            for _ in 0..20 {
+                let mut cx = Context::from_waker(&waker.waker);
+                let polled = {
+                    let _s = track::scope(track::TAG_A10);
+                    fut.as_mut().poll(&mut cx)
+                };
+                match polled {
+                    Poll::Ready(Ok(d)) => {
+                        out = Ok(d);
+                        break;
+                    }
+                    Poll::Ready(Err(e)) => {
+                        out = Err(format!("to_direct_descriptor failed: {e}"));
+                        break;
+                    }
+                    Poll::Pending => {
+                        for _ in 0..2 {
+                            let _ = self.poll_ring(Some(Duration::ZERO));
+                        }
+                    }
+                }
+            }
+            let _s = track::scope(track::TAG_A10);
+            drop(fut);
+            out
+        };
+        sim::sim().enter_hook = None;
+        let direct = result?;
+        let slot = slot_cell.lock().unwrap().ok_or("no direct slot allocated")?;
+        // Replace the regular descriptor (its close goes through the ring).
+        if let Some(ptr) = self.fds[i].take() {
+            let _scope = track::scope(track::TAG_A10);
+            drop(unsafe { Box::from_raw(ptr) });
+        }
+        let boxed = {
+            let _scope = track::scope(track::TAG_A10);
+            Box::into_raw(Box::new(direct))
+        };
+        self.fds[i] = Some(boxed);
+        for _ in 0..4 {
+            let _ = self.poll_ring(Some(Duration::ZERO));
+            if sim::sim().ring(self.ring_fd).map(|r| r.sq_pending()).unwrap_or(0) == 0 {
+                break;
+            }
+        }
+        self.direct_index = Some(slot);
+        Ok(())
     }
 
     pub fn drop_fd(&mut self, i: usize) {
